@@ -7,10 +7,10 @@ def main():
     c = Check("C05", a.tier, a.seed)
     if a.replay:
         r = json.load(open(a.replay)); c.seed, c.tier = r["seed"], r["tier"]
-    targets = ["Model/C05Run.vo"] + (["Props/C05.vo"] if os.path.exists(os.path.join(COQ, "Props/C05.v")) else [])
+    targets = ["Model/C05Run.vo"] + props("C05")[2]
     ok_mk, log = c.make(targets)
-    thms = theorems_of("Props/C05.v")
-    assumptions = c.audit("Props.C05", thms) if ok_mk and thms else {}
+    thms = theorems_of(*props("C05")[0])
+    assumptions = c.audit(props("C05")[1], thms) if ok_mk and thms else {}
     binary = c.build_harness("release")
     casefile = os.path.join(c.work, "cases.txt")
     n, dist, fails, samples, skipped = 0, {}, [], [], 0
